@@ -37,9 +37,10 @@ CHECKS = {
    "global phase of psi' and leaves |psi'|^2; only MeshOperators writes the covariant operators and the solver hands it A_applied(+A_induced).",
    "Operator-level and per-step only; agreement of two whole runs to rounding is declined."),
  "C05": (True, "other", "typestate on the statement CFG of the run loop; sibling agreement; shape domain {1,many}; prefix-sum typing",
-   "Product-graph typestate search over the CFG of Runner._run_stage (events LABEL/UPDATE/SAVE/ADVANCE, exception edges from the update call and "
-   "the frame writer): every save happens with exactly as many updates applied as the label says, on every path, with a witness path otherwise; save "
-   "predicates complementary and the final step saved exactly once; stop test `time >= end_time` before each update; records appended once per update under the guards under which they are declared; cursor/clear discipline; the record "
+   "Runner._run_stage and Runner.run are followed statement by statement over a finite abstract domain (91 + 6 scenarios: steps to the end time x save interval x "
+   "{no interrupt, KeyboardInterrupt in the n-th update / n-th save} x {cancel, pause+cancel, pause+resume}; thermalisation on/off) with a model update function and frame writer, "
+   "and the recorded trace (LABEL / UPDATE / ADVANCE / SAVE / CLEAR / CURSOR) is judged: every frame labelled (step s, time t) holds the state after s updates with t = s*dt; frames at 0, k, 2k, ... and the final "
+   "step, each once; the run stops at the first step whose time reaches the end time; records appended once per update under the guards under which they are declared; cursor/clear discipline; the record "
    "writer's rank vs the reader's on the abstract shape domain; thermalisation never saved and clock reset; reported times are exclusive prefix sums.",
    "Exceptions only at the two injection points the property names; h5py creation order trusted."),
  "C06": (True, "other", "fixed-point obligation on an identity row (value numbering); row-mask typing of COO blocks; def-use wiring rules",
@@ -122,11 +123,24 @@ FRESH = " Aliasing rule: no TDGLSolver/MeshOperators method returns a view of an
 PURE = " Effect rule: no function of the package writes into an array it was handed (frozen output-parameter table excepted)."
 CARRIED = " State rule: the attributes update() both writes and reads across calls stay within the confirmed carried-state table."
 MESHIMM = " Who-may-write rule: Mesh/EdgeMesh geometry (and the x/y views of it) is written by the constructors only."
+TRACE_UPDATE = (" Rules about TDGLSolver.update() are predicates on 180 traces of the method (pvs/update_trace.py: it is followed statement by statement over a finite abstract "
+                "domain for dynamic A {off, changed, unchanged} x dynamic epsilon x probes x adaptive x screening {off, converges at evaluation 1/2/3, never}), "
+                "so they do not depend on how update() is arranged.")
+TRACE_LOOP = (" Rules about the simulation loop are predicates on the traces of Runner._run_stage / Runner.run (pvs/run_trace.py, 97 scenarios incl. interrupts in "
+              "the n-th update / save with cancel, pause and resume).")
 EXTRA = {
- "C01": FRESH, "C02": CARRIED, "C03": MESHIMM, "C07": MESHIMM, "C18": MESHIMM, "C09": PURE, "C11": FRESH + PURE + CARRIED, "C15": FRESH + PURE,
- "C04": " No caller may build the order-parameter operators without link variables (None) when a later refresh stores complex values into them.",
+ "C01": FRESH, "C02": CARRIED + TRACE_UPDATE, "C05": TRACE_UPDATE, "C12": TRACE_UPDATE + TRACE_LOOP, "C13": TRACE_UPDATE,
+ "C14": " Writer/reader agreement (R14.1, R14.6, R14.12, R14.13) is decided by symbolic HDF5 round trips (pvs/h5model.py): the writer is followed into a model group - per optional "
+        "attribute set / unset, per collection empty, per writer flag - and the reader is followed on exactly that group.",
+ "C16": " Leaf equality (R16.11) is a decision table obtained by following Parameter.__eq__ on pairs that differ in exactly one respect.",
+ "C19": " SolverOptions.validate and validate_terminal_currents are followed on boundary samples / balanced, unbalanced and misspelt currents.",
+ "C20": " cdist dispatch and the unit conversion of every returned part are decided by following the functions (reaching definitions, 9 dispatch scenarios).", "C03": MESHIMM, "C07": MESHIMM, "C09": PURE, "C11": FRESH + PURE + CARRIED + TRACE_UPDATE + TRACE_LOOP,
+ "C15": FRESH + PURE + TRACE_LOOP + " The output-file protocol (R15.1-R15.3) is judged on traces of DataHandler._create_output_file / close / __exit__ against a model file "
+        "system (pvs/handler_trace.py: name exists, name and -1 exist, stale tmp file, ...).",
+ "C18": MESHIMM + " Set operations, the inplace discipline and the points setter (R18.1, R18.2, R18.4) are decided by following the methods with symbolic operands.",
+ "C04": " No caller may build the order-parameter operators without link variables (None) when a later refresh stores complex values into them." + TRACE_UPDATE,
  "C10": " Static dtype: a refresh that stores complex link variables into operators assembled from real entries is a difference (also explored "
-        "with the first potential identically zero when the builders test the values of the potential); no caller passes None for the potential.",
+        "with the first potential identically zero when the builders test the values of the potential); no caller passes None for the potential." + TRACE_UPDATE,
 }
 
 NOT_YET = "checker not yet built in this session (static rule planned in DESIGN.md section 3)"
